@@ -3,7 +3,29 @@ import json
 import subprocess
 import common as c
 
-RECORDER_TIMEOUT_S = 120      # the recorder runs thousands of executes in well under a minute; a hang is a C03 matter
+STALL_S = 300      # no recorded program for this long while the recorder is alive = an execute that does not return (a C03 matter);
+                   # one program takes milliseconds, so this is independent of machine load, unlike a limit on the whole batch
+
+
+def run_recorder(args, out_file):
+    """Run `vh fwdrec`; returns the finished process, or None when it stalled (no new program recorded for STALL_S seconds)."""
+    import os
+    import time
+    p = subprocess.Popen([c.VH] + [str(a) for a in args], stdout=subprocess.PIPE, stderr=subprocess.PIPE, text=True)
+    last_size, last_change = -1, time.time()
+    while True:
+        try:
+            out, err = p.communicate(timeout=5)
+            p.stdout_text, p.stderr_text = out, err
+            return p
+        except subprocess.TimeoutExpired:
+            size = os.path.getsize(out_file) if os.path.exists(out_file) else 0
+            if size != last_size:
+                last_size, last_change = size, time.time()
+            elif time.time() - last_change > STALL_S:
+                p.kill()
+                p.communicate()
+                return None
 
 
 def l1(ctx):
@@ -18,13 +40,13 @@ def traces(ctx, mode, n, batch=1500):
     for b in range(0, n, batch):
         k = min(batch, n - b)
         rec = ctx.path("fwd_%s_%d.ndjson" % (mode, b))
-        try:
-            p = c.vh(["fwdrec", "--n", k, "--seed", ctx.seed * 104729 + b, "--mode", mode, "--out", rec], timeout=RECORDER_TIMEOUT_S)
-        except subprocess.TimeoutExpired:
+        p = run_recorder(["fwdrec", "--n", k, "--seed", ctx.seed * 104729 + b, "--mode", mode, "--out", rec], rec)
+        if p is None:
             ctx.failures.append({"model": "forward-trace", "kind": "execute-did-not-return", "cfg": {}, "prefix": [],
                                  "label": {"mode": mode, "batch": b, "seed": ctx.seed}, "allowed": ["execute returns"],
-                                 "actual": "recorder still running after %d s" % RECORDER_TIMEOUT_S})
+                                 "actual": "the recorder made no progress for %d s: an execute call did not return" % STALL_S})
             continue
+        p.stdout, p.stderr = p.stdout_text, p.stderr_text
         if p.returncode != 0:
             c.recorder_failed(ctx, "fwdrec", p, "forward-trace")
             continue
